@@ -400,6 +400,14 @@ CHECKS["C04"]["text"] += (" Of mir_eval/beat.py, trim_beats, _get_reference_beat
                           "re-states the variation / P-score definitions on the code as translated; suite gen_beat runs them and the "
                           "run-time primitives against the real functions / NumPy; goto, continuity, cemgil, information_gain and "
                           "evaluate stay hand model + correspondence.")
+CHECKS["C04"]["text"] += (" The alignment metrics (absolute_error, percentage_correct, percentage_correct_segments in both variants, "
+                          "karaoke_perceptual_metric for every interpretation of exp / erf) and the glue of alignment.evaluate are "
+                          "REGENERATED from mir_eval/alignment.py on every run (translator part `alignment` -> lean/MirGen/Alignment.lean "
+                          "over MirModel/PyAl.lean; validate is bound to the definition regenerated by part `validators`) and "
+                          "Props/C04_GenAlignment.lean proves each translated definition equal to the hand model for all timestamp "
+                          "lists, windows and durations; suite gen_alignment runs them and the run-time primitives against the real "
+                          "functions / NumPy / SciPy; the glue of onset.evaluate / tempo.evaluate is regenerated likewise (part "
+                          "`evalglue` -> lean/MirGen/EvalGlue.lean, Props/C04_GenEvalGlue.lean, suite gen_evalglue).")
 
 
 def main():
